@@ -48,7 +48,15 @@ contract(
     raises={ANY: None},
 )
 
+contract(
+    prop=["C06"], file="<abstract>", func="_ref_is_stale@ghost", trusted=True,
+    params={"self": "obj:ReceivePackHandler", "ref": "opaque", "oldsha": "opaque", "zero_sha": "opaque"}, returns="bool",
+    raises={"KeyError": None, ANY: None},
+    ensures=["result == (not upred('fresh', ref, oldsha))"],
+    note="ghost view of _ref_is_stale: False establishes that the ref currently holds the value the client expects",
+)
 R = "self.repo.refs"
+CMD_FRESH = "upred('fresh', field(elem(refs, j), 2, 3), field(elem(refs, j), 0, 3))"
 TRUTHFUL = [
     # reported ok  <=>  exactly one conditional update was attempted for this command, on this ref, and took effect
     f"(ref_status == b'ok') == ({R}.ncalls == n0 + 1 and {R}.last_ok and {R}.last_ref is ref)",
@@ -61,14 +69,35 @@ contract(
     modifies=["self.repo.refs", "self.repo.object_store"],
     raises={ANY: None},
     loops={
-        2: dict(invariant=UNTOUCHED),                               # atomic: validation phase touches no ref
+        # atomic: the validation phase touches no ref, and unless it records a failure every command seen so far was
+        # validated against the current value of its ref (deletes as well as updates)
+        2: dict(invariant=UNTOUCHED + [f"has_failure or all({CMD_FRESH} for j in range(0, _it2))"]),
         3: dict(invariant=UNTOUCHED),                               # atomic: failure report
         4: dict(snapshot={"n0": f"{R}.ncalls"}),                    # atomic: application phase
         5: dict(snapshot={"n0": f"{R}.ncalls"}),                    # non-atomic
     },
-    options={"yields": "any", "faults": "caught", "asserts": [
+    options={"yields": "any", "faults": "caught",
+             "callee_contracts": {"ReceivePackHandler._ref_is_stale": ("<abstract>", "_ref_is_stale@ghost")},
+             "asserts": [
+        # all-or-none (sequentially): in atomic mode nothing is applied unless EVERY command was validated
+        ("atomic-validated-set", "if not self.repo.refs.set_if_equals(ref, oldsha, sha):", ["not atomic or upred('fresh', ref, oldsha)"]),
+        ("atomic-validated-remove", "if not self.repo.refs.remove_if_equals(ref, oldsha):", ["not atomic or upred('fresh', ref, oldsha)"]),
         ("status-truthful", "yield (ref, ref_status)", TRUTHFUL),
         ("atomic-none-applied-1", 'yield (ref, b"atomic push failed")', UNTOUCHED),
         ("atomic-none-applied-2", "yield (ref, status)", UNTOUCHED + ["status != b'ok'"]),
     ]},
+)
+
+
+# ---- the in-process push path: every ref update is CONDITIONAL on the value the client saw ------------------------
+contract(
+    prop=["C06", "C08"], file="dulwich/client.py", func="LocalGitClient.send_pack", returns="opaque",
+    raises={"Exception": None, "BaseException": None},
+    options={"default_param": "opaque", "faults": "caught", "focus": ["old_sha1", "new_sha1", "refname", "old_refs", "new_refs", "ref_status", "target"],
+             "asserts": [
+                 # None would mean "unconditional" to the refs API: a push never overwrites a value it has not seen
+                 ("cas-set", "if not target.refs.set_if_equals(refname, old_sha1, new_sha1):", ["old_sha1 is not None"]),
+                 ("cas-remove", "if not target.refs.remove_if_equals(refname, old_sha1):", ["old_sha1 is not None"]),
+             ]},
+    cover=False, verify_paths_limit=100000,
 )
